@@ -13,6 +13,11 @@ CHECKS = {
    "Every one of the 25x2x(kinds x payload variants + 65536 alerts) cells of tls_state_transition is executed and compared with an independently transcribed table; the product of the real function with the flow automaton is explored to fixpoint, so acceptance is decided for all finite message sequences (language equivalence with the documented flows), shortest counterexample first.",
    "Trusted: the reference table / flow grammar (DESIGN appendix A), cross-checked against each other on every run; message payload variation limited to 3-4 variants per kind (all 65536 alerts).",
    "DESIGN.md section 3 C08, appendix A"),
+ "C17": (True, "exploration",
+   "complete finite-domain sweep (all 256 / 65536 values of each registry type) against independently transcribed IANA tables",
+   "Every value of the domain of each of the 18 registry newtypes and of the cipher-suite id type is formatted and converted, and every named constant is compared with the IANA value; the space is finite and enumerated completely, so within the trusted tables this is a decision, not a sample.",
+   "Trusted: the hand-transcribed IANA tables (vcommon/src/reference/iana.rs). Constants found in the crate's sources without a table entry are reported in the evidence and not judged.",
+   "DESIGN.md section 3 C17"),
 }
 PENDING_REASON = "check not built yet in this round (work in progress; see DESIGN.md appendix C for the build order)"
 
